@@ -92,6 +92,8 @@ def run_fit(case, R):
         with instr.options(**s.copts), instr.capture() as events:
             model = scen.fit(s)
     except Exception as e:
+        if not instr.is_library_exception(e):
+            raise
         R.count(f'fit raised {type(e).__name__}')
         R.ok('C01.raised')
         return
@@ -107,6 +109,8 @@ def run_fit(case, R):
     try:
         post = models.predict(kind, model, s.data, **pk)
     except Exception as e:
+        if not instr.is_library_exception(e):
+            raise
         R.count(f'predict raised {type(e).__name__}')
         R.ok('C01.raised')
         return
@@ -135,6 +139,8 @@ def run_fit(case, R):
             with instr.disarmed():
                 ref = models.bayes_posterior(kind, model, s.data, mask=s.mask if pk else None)
         except Exception as e:
+            if not instr.is_library_exception(e):
+                raise
             R.undecided('C01.M3', f'component log_pdf raised {type(e).__name__}')
             ref = None
         if ref is not None:
@@ -155,6 +161,8 @@ def run_fit(case, R):
         with instr.options(**s.copts):
             fp = scen.fit_predict(s)
     except Exception as e:
+        if not instr.is_library_exception(e):
+            raise
         R.count(f'fit_predict raised {type(e).__name__}')
         R.ok('C01.raised')
         return
@@ -192,6 +200,8 @@ def run_init(case, R):
         else:
             a = getattr(ini.iid, which)(Y, K, permutation_free=pf)
     except Exception as e:
+        if not instr.is_library_exception(e):
+            raise
         R.count(f'{which} raised {type(e).__name__}')
         R.ok('C01.raised')
         return
@@ -244,6 +254,8 @@ def run_routine(case, R):
     try:
         g = mmu.log_pdf_to_affiliation(w, lp.copy(), source_activity_mask=mask, affiliation_eps=case['eps'])
     except Exception as e:
+        if not instr.is_library_exception(e):
+            raise
         R.count(f'routine raised {type(e).__name__}')
         R.ok('C01.raised')
         return
